@@ -33,7 +33,7 @@ EXTERNAL = {
     'base64.b64decode': ['ValueError'],
     'binascii.unhexlify': ['ValueError'],
     'asyncio.wait_for': ['asyncio.TimeoutError'],
-    'datetime.datetime': ['ValueError', 'OverflowError'],
+    'datetime.datetime': ['ValueError'],      # OverflowError needs an argument >= 2**31; every caller passes int() of <= 4 characters
     'datetime.datetime.strptime': ['ValueError'],
     'datetime.datetime.utcfromtimestamp': ['ValueError', 'OverflowError', 'OSError'],
     'datetime.datetime.fromtimestamp': ['ValueError', 'OverflowError', 'OSError'],
@@ -91,7 +91,7 @@ class Item(tuple):
 
 class Escape:
     def __init__(self, repo, res, summaries=None, external=None, count_asserts=True, count_idioms=True,
-                 stop_at=None, codec_lookup=False):
+                 stop_at=None, codec_lookup=False, stop_modules=('wpull.thirdparty',), taint=None):
         self.repo = repo
         self.res = res
         self.summaries = summaries or {}      # qualname -> list of type names (overrides analysis)
@@ -109,6 +109,17 @@ class Escape:
         self.call_edges = {}                  # qual -> set of callee quals
         self._anc = {}
         self.stop_at = stop_at or set()
+        self.stop_modules = tuple(stop_modules)
+        self.taint = taint            # optional: drop callee items when a stateless callee gets no tainted argument
+        self.env = {}
+        self.nest = 0
+        self.sites = {}                       # Item -> (FuncInfo, node)
+        self.clean_calls = 0
+
+    def _item(self, fi, node, typ, text, kind):
+        it = Item((typ, text, kind))
+        self.sites.setdefault(it, (fi, node))
+        return it
 
     # ------------------------------------------------------------ hierarchy
     def ancestors(self, t):
@@ -164,10 +175,12 @@ class Escape:
         self.final.update(self.memo)
         return r
 
-    def _esc(self, fi):
-        q = fi.qual
-        if q in self.summaries:
-            return {Item((t, '%s (summary)' % q, 'summary')) for t in self.summaries[q]}
+    def _esc(self, fi, env=None):
+        """Escape set of fi under the constant bindings `env` of its parameters."""
+        if fi.qual in self.summaries:
+            return {Item((t, '%s (summary)' % fi.qual, 'summary')) for t in self.summaries[fi.qual]}
+        env = dict(env or {})
+        q = (fi.qual, tuple(sorted((k, repr(v)) for k, v in env.items())))
         if q in self.final:
             return self.final[q]
         if q in self.memo:
@@ -175,22 +188,115 @@ class Escape:
         if q in self.in_progress:
             return self._seed.get(q, set())
         self.in_progress.add(q)
-        out = self._block(fi, fi.node.body, None)
+        saved = (self.env, self.nest)
+        self.env, self.nest = env, 0
+        try:
+            out = self._block(fi, fi.node.body, None)
+        finally:
+            self.env, self.nest = saved
         self.in_progress.discard(q)
         self.memo[q] = out
         return out
+
+    # ------------------------------------------------------------ constants
+    def _const(self, e):
+        """(known, value) of an expression under the current constant environment."""
+        if isinstance(e, ast.Constant):
+            return True, e.value
+        if isinstance(e, ast.Name) and e.id in self.env:
+            return True, self.env[e.id]
+        if isinstance(e, ast.UnaryOp) and isinstance(e.op, ast.Not):
+            k, v = self._const(e.operand)
+            return (True, not v) if k else (False, None)
+        if isinstance(e, ast.IfExp):
+            k, v = self._const(e.test)
+            if k:
+                return self._const(e.body if v else e.orelse)
+            return False, None
+        if isinstance(e, ast.Compare) and len(e.ops) == 1 and isinstance(e.ops[0], (ast.Is, ast.IsNot, ast.Eq, ast.NotEq)):
+            k1, v1 = self._const(e.left)
+            k2, v2 = self._const(e.comparators[0])
+            if k1 and k2:
+                r = (v1 is v2) if isinstance(e.ops[0], (ast.Is, ast.IsNot)) else (v1 == v2)
+                return True, r if isinstance(e.ops[0], (ast.Is, ast.Eq)) else not r
+            return False, None
+        if isinstance(e, ast.BoolOp):
+            vals = [self._const(v) for v in e.values]
+            if isinstance(e.op, ast.And):
+                if any(k and not v for k, v in vals):
+                    return True, False
+                if all(k for k, v in vals):
+                    return True, vals[-1][1]
+            else:
+                if any(k and v for k, v in vals):
+                    return True, True
+                if all(k for k, v in vals):
+                    return True, vals[-1][1]
+            return False, None
+        return False, None
+
+    def _bind(self, g, call, is_method):
+        """Constant bindings of g's parameters at this call site."""
+        a = g.node.args
+        params = [x.arg for x in a.posonlyargs + a.args]
+        defaults = dict(zip(params[len(params) - len(a.defaults):], a.defaults))
+        for x, d in zip(a.kwonlyargs, a.kw_defaults):
+            if d is not None:
+                defaults[x.arg] = d
+        off = 1 if params and params[0] in ('self', 'cls') and (is_method or g.name == '__init__') else 0
+        env = {}
+        supplied = set()
+        for i, arg in enumerate(call.args):
+            if isinstance(arg, ast.Starred):
+                return {}
+            if i + off < len(params):
+                supplied.add(params[i + off])
+                k, v = self._const(arg)
+                if k and isinstance(v, (bool, str, bytes, type(None), int)):
+                    env[params[i + off]] = v
+        for kw in call.keywords:
+            if kw.arg is None:
+                return {}
+            supplied.add(kw.arg)
+            k, v = self._const(kw.value)
+            if k and isinstance(v, (bool, str, bytes, type(None), int)):
+                env[kw.arg] = v
+        for p, d in defaults.items():
+            if p not in supplied and isinstance(d, ast.Constant) and isinstance(d.value, (bool, str, bytes, type(None), int)):
+                env[p] = d.value
+        return env
 
     # ------------------------------------------------------------ statements
     def _block(self, fi, stmts, reraise):
         out = set()
         for s in stmts:
             out |= self._stmt(fi, s, reraise)
+            if isinstance(s, ast.If):
+                known, val = self._const(s.test)
+                if known:
+                    taken = s.body if val else s.orelse
+                    if taken and isinstance(taken[-1], (ast.Return, ast.Raise, ast.Continue, ast.Break)):
+                        break      # the rest of the block is unreachable in this constant context
+            # names assigned inside a compound statement are not constants afterwards
+            if isinstance(s, (ast.If, ast.For, ast.While, ast.Try, ast.With, ast.AsyncFor, ast.AsyncWith)):
+                for n in ast.walk(s):
+                    if isinstance(n, ast.Name) and isinstance(n.ctx, ast.Store):
+                        self.env.pop(n.id, None)
         return out
 
     def _stmt(self, fi, s, reraise):
         if isinstance(s, (ast.FunctionDef, ast.AsyncFunctionDef, ast.ClassDef)):
             return set()
         if isinstance(s, ast.Try):
+            self.nest += 1
+            try:
+                return self._try(fi, s, reraise)
+            finally:
+                self.nest -= 1
+        return self._stmt2(fi, s, reraise)
+
+    def _try(self, fi, s, reraise):
+        if True:
             body = self._block(fi, s.body, reraise)
             remaining = set(body)
             out = set()
@@ -203,6 +309,8 @@ class Escape:
             out |= self._block(fi, s.orelse, reraise)
             out |= self._block(fi, s.finalbody, reraise)
             return out
+
+    def _stmt2(self, fi, s, reraise):
         if isinstance(s, ast.Raise):
             out = set()
             if s.exc is None:
@@ -217,24 +325,31 @@ class Escape:
             if t is None:
                 # raise of a local variable holding an exception: unknown type
                 t = 'Exception'
-            out.add(Item((t, '%s raise %s' % (fi.loc(s), norm_text(target)), 'raise')))
+            out.add(self._item(fi, s, t, '%s raise %s' % (fi.loc(s), norm_text(target)), 'raise'))
             return out
         if isinstance(s, ast.Assert):
             out = self._expr(fi, s.test, s)
             if self.count_asserts:
-                out.add(Item(('AssertionError', '%s assert %s' % (fi.loc(s), norm_text(s.test)), 'assert')))
+                out.add(self._item(fi, s, 'AssertionError', '%s assert %s' % (fi.loc(s), norm_text(s.test)), 'assert'))
             return out
         out = set()
         # header expressions of compound statements, whole simple statements
         if isinstance(s, (ast.If, ast.While)):
             out |= self._expr(fi, s.test, s)
-            out |= self._block(fi, s.body, reraise)
-            out |= self._block(fi, s.orelse, reraise)
+            known, val = self._const(s.test) if isinstance(s, ast.If) else (False, None)
+            self.nest += 1
+            if not known or val:
+                out |= self._block(fi, s.body, reraise)
+            if not known or not val:
+                out |= self._block(fi, s.orelse, reraise)
+            self.nest -= 1
             return out
         if isinstance(s, (ast.For, ast.AsyncFor)):
             out |= self._expr(fi, s.iter, s)
+            self.nest += 1
             out |= self._block(fi, s.body, reraise)
             out |= self._block(fi, s.orelse, reraise)
+            self.nest -= 1
             return out
         if isinstance(s, (ast.With, ast.AsyncWith)):
             for it in s.items:
@@ -242,12 +357,24 @@ class Escape:
             out |= self._block(fi, s.body, reraise)
             return out
         out |= self._expr(fi, s, s)
+        if isinstance(s, ast.Assign):
+            for t in s.targets:
+                for nm in ast.walk(t):
+                    if isinstance(nm, ast.Name):
+                        k, v = self._const(s.value) if (len(s.targets) == 1 and isinstance(t, ast.Name)) else (False, None)
+                        if k:
+                            self.env[nm.id] = v
+                        else:
+                            self.env.pop(nm.id, None)
+        elif isinstance(s, (ast.AugAssign, ast.AnnAssign)) and isinstance(s.target, ast.Name):
+            self.env.pop(s.target.id, None)
         if self.count_idioms and isinstance(s, ast.Assign) and len(s.targets) == 1 \
                 and isinstance(s.targets[0], (ast.Tuple, ast.List)):
             v = s.value
             if isinstance(v, ast.Call) and isinstance(v.func, ast.Attribute) and v.func.attr in ('split', 'rsplit') \
-                    and not any(isinstance(e, ast.Starred) for e in s.targets[0].elts):
-                out.add(Item((IDIOM_UNPACK, '%s unpack of %s' % (fi.loc(s), norm_text(v)), 'unpack')))
+                    and not any(isinstance(e, ast.Starred) for e in s.targets[0].elts) \
+                    and not (len(s.targets[0].elts) == 2 and v.args and guarded_separator(fi.node, v, s)):
+                out.add(self._item(fi, v, IDIOM_UNPACK, '%s unpack of %s' % (fi.loc(s), norm_text(v)), 'unpack'))
         return out
 
     # ------------------------------------------------------------ expressions
@@ -265,8 +392,8 @@ class Escape:
                         out |= self._via(fi, n, self._esc(m))
                 if self.count_idioms and n.attr in MATCH_ATTRS and isinstance(n.value, ast.Name):
                     if self._maybe_none_match(fi, n.value.id, n):
-                        out.add(Item((IDIOM_NONE_ATTR, '%s %s.%s on a possibly failed match' % (
-                            fi.loc(n), n.value.id, n.attr), 'none-attr')))
+                        out.add(self._item(fi, n, IDIOM_NONE_ATTR, '%s %s.%s on a possibly failed match' % (
+                            fi.loc(n), n.value.id, n.attr), 'none-attr'))
             elif isinstance(n, ast.Subscript) and isinstance(n.ctx, ast.Load) and self.count_idioms:
                 it = self._subscript(fi, n)
                 if it is not None:
@@ -290,9 +417,19 @@ class Escape:
                     funcs.append(init)
         for f in funcs:
             self.call_edges.setdefault(fi.qual, set()).add(f.qual)
-            if f.qual in self.stop_at:
+            if f.qual in self.summaries:
+                for t in self.summaries[f.qual]:
+                    out.add(self._item(fi, call, t, '%s %s' % (fi.loc(call), norm_text(call)[:70]), 'summary'))
                 continue
-            out |= self._via(fi, call, self._esc(f))
+            if f.qual in self.stop_at or f.module.name.startswith(self.stop_modules):
+                continue
+            if self.taint is not None and (f.cls is None or 'classmethod' in f.decorators or 'staticmethod' in f.decorators) \
+                    and not any(self.taint.tainted(fi, a) for a in list(call.args) + [k.value for k in call.keywords]):
+                # stateless callee, no server data flows in at this call site
+                self._esc(f, self._bind(f, call, isinstance(call.func, ast.Attribute)))
+                self.clean_calls += 1
+                continue
+            out |= self._via(fi, call, self._esc(f, self._bind(f, call, isinstance(call.func, ast.Attribute))))
         if funcs:
             return out
         # external
@@ -315,10 +452,18 @@ class Escape:
         types = list(self.external[key])
         if key in ('.decode', '.encode'):
             errs = U.kwarg(call, 'errors', 1)
+            if errs is not None and not isinstance(errs, ast.Constant):
+                k_, v_ = self._const(errs)
+                if k_:
+                    errs = ast.Constant(value=v_)
             if isinstance(errs, ast.Constant) and errs.value in ('replace', 'ignore', 'backslashreplace',
                                                                   'surrogateescape', 'xmlcharrefreplace'):
                 types = [t for t in types if not t.startswith('Unicode')]
             enc = U.kwarg(call, 'encoding', 0)
+            if enc is not None and not isinstance(enc, ast.Constant):
+                k_, v_ = self._const(enc)
+                if k_:
+                    enc = ast.Constant(value=v_)
             const_codec = enc is None or isinstance(enc, ast.Constant)
             if const_codec or not self.codec_lookup:
                 types = [t for t in types if t != 'LookupError']
@@ -336,7 +481,7 @@ class Escape:
         if key == 'next' and len(call.args) > 1:
             types = []
         for t in types:
-            out.add(Item((t, '%s %s' % (fi.loc(call), norm_text(call)[:80]), 'external')))
+            out.add(self._item(fi, call, t, '%s %s' % (fi.loc(call), norm_text(call)[:80]), 'external'))
         return out
 
     # ------------------------------------------------------------ idioms
@@ -368,13 +513,14 @@ class Escape:
             meth, call = src
             if meth in ('partition', 'rpartition') and -3 <= k <= 2:
                 return None
-            if meth in ('split', 'rsplit', 'splitlines') and k in (0, -1) and meth != 'splitlines':
-                # str.split(sep) always yields at least one element; split() without sep may yield none
-                if call.args or call.keywords:
+            if meth in ('split', 'rsplit') and k in (0, -1):
+                # str.split(sep) always yields at least one element; split() / split(None) may yield none
+                sep = call.args[0] if call.args else U.kwarg(call, 'sep')
+                if sep is not None and not (isinstance(sep, ast.Constant) and sep.value is None):
                     return None
             if isinstance(base, ast.Name) and guarded_len(fi.node, base.id, n, k):
                 return None
-            return Item((IDIOM_INDEX, '%s %s (from .%s())' % (fi.loc(n), norm_text(n), meth), 'index'))
+            return self._item(fi, n, IDIOM_INDEX, '%s %s (from .%s())' % (fi.loc(n), norm_text(n), meth), 'index')
         # lookup in a module-level dict constant
         d = dotted(base)
         if d is not None and not self.res._is_local(fi, d.split('.')[0]):
@@ -382,7 +528,7 @@ class Escape:
             if r is not None and r[0] == 'const' and isinstance(r[2], (ast.Dict,)) and not isinstance(idx, ast.Constant):
                 if guarded_membership(fi.node, d, idx, n):
                     return None
-                return Item((IDIOM_KEY, '%s %s' % (fi.loc(n), norm_text(n)), 'key'))
+                return self._item(fi, n, IDIOM_KEY, '%s %s' % (fi.loc(n), norm_text(n)), 'key')
         return None
 
 
@@ -452,6 +598,40 @@ def _enclosing_chain(fn, node):
         chain.append((par, cur))
         cur = par
     return chain
+
+
+def guarded_separator(fn, split_call, node):
+    """`a, b = x.split(sep, 1)` is safe when a dominating test established `sep in x`."""
+    sep = norm_text(split_call.args[0])
+    recv = norm_text(split_call.func.value)
+
+    def has(test, positive):
+        if isinstance(test, ast.Compare) and len(test.ops) == 1 and norm_text(test.left) == sep \
+                and norm_text(test.comparators[0]) == recv:
+            return isinstance(test.ops[0], ast.In) if positive else isinstance(test.ops[0], ast.NotIn)
+        if isinstance(test, ast.BoolOp) and isinstance(test.op, ast.And) and positive:
+            return any(has(v, True) for v in test.values)
+        return False
+    for par, child in _enclosing_chain(fn, node):
+        if isinstance(par, ast.If):
+            if any(child is s for s in par.body) and has(par.test, True):
+                return True
+            if any(child is s for s in par.orelse) and has(par.test, False):
+                return True
+        for fld in ('body', 'orelse', 'finalbody'):
+            blk = getattr(par, fld, None)
+            if isinstance(blk, list) and any(child is s for s in blk):
+                i = [j for j, s in enumerate(blk) if s is child][0]
+                for prev in blk[:i]:
+                    if isinstance(prev, ast.If) and has(prev.test, False) and prev.body and not prev.orelse:
+                        # every path through the body leaves the block
+                        last = prev.body[-1]
+                        if isinstance(last, (ast.Return, ast.Raise, ast.Continue, ast.Break)):
+                            return True
+                        if isinstance(last, ast.If) and last.orelse and all(
+                                isinstance(b[-1], (ast.Return, ast.Raise, ast.Continue, ast.Break)) for b in (last.body, last.orelse)):
+                            return True
+    return False
 
 
 def guarded_truthy(fn, name, node):
